@@ -96,6 +96,11 @@ func genCaseC02(t *rapid.T) *c02Case {
 	base.LateRegister = rapid.IntRange(0, 4).Draw(t, "lateRegister") == 0
 	base.KeepParsed = base.LateRegister && rapid.Bool().Draw(t, "keepParsed")
 	base.Decoy = rapid.IntRange(0, 3).Draw(t, "decoyRoots") == 0
+	if !base.KeepParsed && rapid.IntRange(0, 2).Draw(t, "resolvedBefore") == 0 {
+		// the parsed request was resolved before, with other values of its variables: each strategy
+		// has to answer for the values of THIS request
+		base.PrimeVars = AltVars(t, base.Schema, d, "prime")
+	}
 	if rapid.IntRange(0, 3).Draw(t, "tightDepth") == 0 {
 		// the depth limit set to what the request needs: every strategy and every list representation
 		// has to count the levels alike
